@@ -152,6 +152,11 @@ def gen_jobs(ctx):
             if all(F(float(v)) == v for r in piece for v in r):
                 jobs.append(("shim.all_intersections", [enc_arr(parent), enc_arr(piece)], "isect"))
                 jobs.append(("shim.all_intersections", [enc_arr(piece), enc_arr(parent)], "isect"))
+    # pairs with two crossings 2^-11 .. 2^-12 apart (C03's closed-form family): the number of crossings must agree (the duplicate
+    # test of the compiled add_intersection has its own copy of the threshold: seed c03-6)
+    from checks import c03
+    for c in c03.gen_close_pairs(ctx):
+        jobs.append(("shim.all_intersections", [enc_arr(c["c1"]), enc_arr(c["c2"])], "isect"))
     # two segments on one lattice line (the only way to the compiled parallel_lines_parameters): every relative position and
     # both directions; here the PARAMETERS are compared as well (one division each in both configurations)
     for _ in range(12 if ctx.quick() else 200):
@@ -257,6 +262,86 @@ def compare(kind, pure, fast, args):
     return None
 
 
+F20_SIG = ("F20 pure-Python Triangle.intersect raises ValueError('Unexpected duplicate count', 4) on a lattice triangle pair "
+           "(four edge-edge intersections in one point) where the compiled triangle_intersections returns normally")
+
+
+def triangle_pairs(ctx):
+    """the shim pair _triangle_intersection.geometric_intersect through Triangle.intersect on exact (lattice) triangle pairs of degree
+    1, also presented elevated to degree 2: region kinds, number of sides and the contained triangle must be identical; random
+    pairs, and directed 'second triangle inside the first, touching its boundary with one corner' pairs with every corner order"""
+    rng = ctx.rng
+    orient = lambda a, b, c: (b[0] - a[0]) * (c[1] - a[1]) - (b[1] - a[1]) * (c[0] - a[0])
+    # pinned instance of known finding F20 (the two triangles share the corner (3, 2))
+    cases = [([(F(1), F(0)), (F(2), F(0)), (F(3), F(2))], [(F(1), F(1)), (F(3), F(2)), (F(4), F(3))])]
+    n_rand = 60 if ctx.quick() else 1500
+    while len(cases) < n_rand:
+        A = [(F(rng.randint(0, 4)), F(rng.randint(0, 4))) for _ in range(3)]
+        B = [(F(rng.randint(0, 4)), F(rng.randint(0, 4))) for _ in range(3)]
+        if orient(*A) > 0 and orient(*B) > 0:
+            cases.append((A, B))
+    for _ in range(12 if ctx.quick() else 200):
+        # B inside A = (0,0),(4w,0),(0,4w) (or a sheared copy), one corner of B on the boundary of A, the other two strictly inside
+        w = rng.choice([1, 2])
+        sh = rng.choice([0, 1])
+        mp = lambda p: (p[0] + sh * p[1], p[1])
+        A = [mp((F(0), F(0))), mp((F(4 * w), F(0))), mp((F(0), F(4 * w)))]
+        on = rng.choice([(F(0), F(0)), (F(2 * w), F(0)), (F(0), F(w)), (F(2 * w), F(2 * w)), (F(4 * w), F(0)), (F(w), F(3 * w))])
+        ins = [(F(w), F(w)), (F(2 * w), F(w)), (F(w), F(2 * w))]
+        q1, q2 = rng.sample(ins, 2)
+        B = [mp(on), mp(q1), mp(q2)]
+        if orient(*B) < 0:
+            B = [B[0], B[2], B[1]]
+        if orient(*B) == 0:
+            continue
+        r = rng.randrange(3)
+        B = B[r:] + B[:r]                      # the touching corner is corner 1, 2 or 3 of B
+        cases.append((A, B))
+        cases.append((B, A))
+    rows = lambda t: [[p[0] for p in t], [p[1] for p in t]]
+    from checks.c17 import tri_elevate
+    jobs, meta = [], []
+    for (A, B) in cases:
+        jobs.append({"op": "Triangle.intersect_summary", "args": [enc_arr(rows(A)), enc_arr(rows(B))]})
+        meta.append((A, B, "linear"))
+        if rng.random() < 0.3:
+            ea, eb = tri_elevate(rows(A), 1), tri_elevate(rows(B), 1)
+            if all(F(float(x)) == x for r_ in ea + eb for x in r_):
+                jobs.append({"op": "Triangle.intersect_summary", "args": [enc_arr(ea), enc_arr(eb)]})
+                meta.append((A, B, "elevated"))
+
+    def summ(r):
+        if "exc" in r:
+            return ("exc", r["exc"])
+        out = []
+        for x in dec_res(r["ok"]):
+            out.append((x[0], len(x[2])) if x[0] == "polygon" else (x[0], tuple(tuple(q) for q in x[1])))
+        return tuple(sorted(out, key=str))
+    stats = {"cases": len(jobs), "failures": 0, "known": 0,
+             "kind": "cross-configuration sweep of Triangle.intersect (shim pair geometric_intersect) on lattice triangle pairs: kinds of the regions, "
+                     "numbers of sides, the contained triangle, exception types"}
+    try:
+        rp = run_impl_parallel("pure", jobs)
+        rf = run_impl_parallel("speedup", jobs)
+    except RuntimeError as exc:
+        ctx.violations.append({"kind": "implementation-run-failed", "detail": str(exc)[-1500:], "no_input": True})
+        return
+    for (A, B, pres), a, b in zip(meta, rp, rf):
+        if summ(a) == summ(b):
+            continue
+        if a.get("exc") == "ValueError" and "Unexpected duplicate count" in a.get("msg", "") and "exc" not in b:
+            stats["known"] += 1
+            if F20_SIG not in ctx.known_hits:
+                ctx.known_hits.append(F20_SIG)
+            continue
+        stats["failures"] += 1
+        if stats["failures"] <= 5:
+            ctx.violations.append({"kind": "configurations-disagree", "op": "Triangle.intersect", "case": {"first": A, "second": B, "presentation": pres},
+                                   "pure": a, "speedup": b,
+                                   "verdict": "Triangle.intersect differs between the configurations: pure %s, compiled %s" % (summ(a), summ(b))})
+    ctx.corr["sweep:triangle_intersection_cross_configuration"] = stats
+
+
 def run(ctx):
     prove(ctx, DEPS)
     jobs = gen_jobs(ctx)
@@ -276,6 +361,7 @@ def run(ctx):
         ctx.violations.append({"kind": "implementation-run-failed", "detail": str(exc)[-1500:], "no_input": True})
     ctx.corr["sweep:cross_configuration"] = stats
     ctx.samples.append({"sweep": "cross_configuration", "case": {"op": jobs[0][0], "args": jobs[0][1]}})
+    triangle_pairs(ctx)
     return finish(ctx, "PROVED here: equality of the twin constants regenerated from both languages, the wiggle default, the evaluation switch "
                   "literal, the declared type of the compiled binomial accumulator, and totality of the classification of the shim names "
                   "enumerated from the AST of the six shim modules; twelve scalar Fortran kernels regenerated from the Fortran text (f902v_fn) equal "
